@@ -251,6 +251,10 @@ def run_check(check, tier, seed, replay=None):
                         buckets[t] = buckets.get(t, 0) + 1
                 for v in vs:
                     stats[v.status] += 1
+                    if v.status == 'dont_care':
+                        dc_reasons[v.sig] = dc_reasons.get(v.sig, 0) + 1
+                    elif v.status == 'inconclusive':
+                        inconc[v.sig] = inconc.get(v.sig, 0) + 1
                     if v.status not in ('held', 'violated'):
                         continue
                     for b in v.buckets:
@@ -263,10 +267,6 @@ def run_check(check, tier, seed, replay=None):
                         if key not in viol:
                             viol[key] = [c, oc, v, 0]
                         viol[key][3] += 1
-                    elif v.status == 'inconclusive':
-                        inconc[v.sig] = inconc.get(v.sig, 0) + 1
-                    elif v.status == 'dont_care':
-                        dc_reasons[v.sig] = dc_reasons.get(v.sig, 0) + 1
                 if len(samples) < 3 and vs and any(v.status == 'held' for v in vs):
                     try:
                         samples.append(check.sample_of(c, oc))
